@@ -39,7 +39,9 @@ fn relate<T: Dom>(vk: VK, k: usize, tr: Tr, rel: Rel, from: usize, until: usize)
                     (Tr::Affine, _) => "view(a*x+b) == view(x) for all a>0, b".into(), (Tr::AffineBy(c), _) => format!("view({c}*x+b) == view(x) for all b"), (Tr::Scale, Rel::Same) => "view(a*x) == view(x) for all a>0".into(), (Tr::ScaleBy(c), Rel::Same) => format!("view({c}*x) == view(x)"),
                     (Tr::Scale, _) => "view(a*x) == a*view(x) for all a>0".into(), (Tr::ScaleBy(c), _) => format!("view({c}*x) == {c}*view(x)"), _ => format!("{tr:?} {rel:?}") };
                 let c = match degenerate { Some(d) => Cond::Or(vec![d, c]), None => c };
-                T::oblige(&format!("{name}: {what}"), c);
+                // for outputs of the form num/sqrt(rad) try the polynomial conditions on the parts first
+                let alts = match rel { Rel::Same if tr == Tr::Negate || matches!(tr, Tr::Affine | Tr::AffineBy(_)) => rel_alts(q, p, T::one(), c, true), Rel::Same => rel_alts(q, p, a, c, false), Rel::Negated => rel_alts(q, p, -T::one(), c, true), _ => vec![c] };
+                T::oblige_alt(&format!("{name}: {what}"), alts);
             }
             _ => T::oblige(&format!("{name}: readiness unchanged by the transformation"), Cond::Bool(false)),
         }
